@@ -182,21 +182,27 @@ class GaussianMixture:
         from scipy.stats import multivariate_normal
 
         n_samples = X.shape[0]
-        responsibilities = np.zeros((n_samples, self.n_components))
+        log_resp = np.zeros((n_samples, self.n_components))
 
         for k in range(self.n_components):
             cov = self._get_covariance(covariances, k)
             try:
-                responsibilities[:, k] = weights[k] * multivariate_normal.pdf(
+                log_pdf = multivariate_normal.logpdf(
                     X, mean=means[k], cov=cov + np.eye(cov.shape[0]) * self.reg_covar
                 )
             except (np.linalg.LinAlgError, ValueError):
-                responsibilities[:, k] = weights[k] * multivariate_normal.pdf(
+                log_pdf = multivariate_normal.logpdf(
                     X, mean=means[k], cov=np.eye(len(means[k])) * self.reg_covar
                 )
+            with np.errstate(divide="ignore"):
+                log_resp[:, k] = np.log(weights[k]) + log_pdf
 
-        # Normalize
-        responsibilities /= np.sum(responsibilities, axis=1, keepdims=True) + 1e-10
+        # Normalize (shift by the row maximum before exponentiating: densities
+        # that all underflow would otherwise give a 0/0 row, and a constant added
+        # to the row sum makes small rows proportional to the density instead)
+        log_resp -= np.max(log_resp, axis=1, keepdims=True)
+        responsibilities = np.exp(log_resp)
+        responsibilities /= np.sum(responsibilities, axis=1, keepdims=True)
 
         return responsibilities
 
